@@ -29,7 +29,7 @@ def nontrivial(f):
 
 
 def run(sh):
-    n = 400 if sh.tier == 'quick' else 8000
+    n = 400 if sh.tier == 'quick' else 80000
     engine_line.run_profile(sh, 'C13', 'faults', n, MONITORS, nontrivial)
 
 
